@@ -104,7 +104,6 @@ struct Sim {
     lines: Vec<String>,
     next_line: usize,
     pending_req: Option<u64>,
-    results: Vec<String>, // canonical-form placeholders are produced at the end; here raw outcome records
     result_values: Vec<LineResult>,
     // spawn tree / awaits
     children: HashMap<ProcessId, Vec<ProcessId>>,
@@ -187,7 +186,6 @@ impl Sim {
             lines: vec![],
             next_line: 0,
             pending_req: None,
-            results: vec![],
             result_values: vec![],
             children: HashMap::new(),
             ever_awaited: HashSet::new(),
@@ -214,12 +212,6 @@ impl Sim {
         let key = format!("{} {}", oracle, what);
         if self.oracle_seen.insert(key) {
             self.oracle_fail.entry(oracle).or_default().push(what);
-        }
-    }
-
-    fn emit(&mut self, s: String) {
-        if self.trace {
-            self.out.push(s);
         }
     }
 
@@ -1149,7 +1141,8 @@ impl Sim {
                 );
             }
         }
-        if !quiescent || self.env_dead.is_some() {
+        // a dead component breaks every liveness expectation; `no-internal-error` reports it
+        if !quiescent || self.env_dead.is_some() || self.worker_dead.iter().any(|d| d.is_some()) {
             return;
         }
         // quiescence: parked processes must not have a ready source
@@ -1420,7 +1413,7 @@ fn run_case(line: &str, trace: bool, instr: bool, bytecode: bool, emit_schedule:
         sim.hang = Some("(result-never-delivered)".to_string());
     }
     sim.final_oracles(quiescent);
-    if quiescent && probe && sim.env_dead.is_none() {
+    if quiescent && probe && sim.env_dead.is_none() && sim.worker_dead.iter().all(|d| d.is_none()) {
         // summary fields are computed from the pre-probe state
         let line = sim.summary(quiescent, emit_schedule);
         let before = sim.oracle_fail.get("quiescence").map(|v| v.len()).unwrap_or(0);
